@@ -368,6 +368,13 @@ def run_c18(ctx, chk):
                  detail='; '.join(bad[:4]) or '%d (stop set, cursor) classes incl. unsorted sets, stop at 0, pending-wrap column, symbolic width' % n,
                  span=prog.bodies[ep('tab')].span, what='; '.join(bad[:3]))
     chk.floor('tab cases', n, 60)
+    # only reset, HTS and TBC (and the constructor's literal) modify the stop set
+    writers = sorted(short(f2) for f2 in prog.bodies if ('tabstops',) in ctx.eff.direct_all(f2))
+    allowed_w = {'Screen::reset', 'Screen::set_tab_stop', 'Screen::clear_tab_stop', 'screen::Screen::new'}
+    extra = [w for w in writers if w not in allowed_w]
+    chk.instance('R-WHO', 'Screen.tabstops', 'only reset, set_tab_stop and clear_tab_stop modify the stop set', bool(writers) and not extra,
+                 detail='functions that modify tabstops directly: %s' % writers,
+                 what='the tab-stop set is also modified by %s (stops set by HTS must survive everything but TBC and reset)' % extra)
     # order independence: the stop set is sorted (or min-reduced) before the scan
     body = prog.bodies[ep('tab')]
     names = [((t['func'].get('fn') or {}).get('path', '')) for bi, t in prog.calls(body)]
@@ -459,6 +466,33 @@ def run_c14(ctx, chk):
             for need in (('g0_charset',), ('g1_charset',), ('charset',), ('cursor',)):
                 if need not in wr:
                     bad.append('[%s] saved %s is not restored' % (r.label, need[0]))
+            # the restored position is the saved one clamped into the screen / region; rendition and
+            # visibility are the saved ones
+            pv = [ev[2] for ev in evs if ev[0] == 'vec.pop' and ev[1] == ('S', 'savepoints') and isinstance(ev[2], StructV)]
+            sc = pv[0].fields.get('cursor') if pv else None
+            if isinstance(sc, StructV) and isinstance(sc.fields.get('x'), NumV) and isinstance(sc.fields.get('y'), NumV):
+                sx, sy = sc.fields['x'], sc.fields['y']
+                cols, lines = get(eng, st, 'columns'), get(eng, st, 'lines')
+                m = get(eng, st, 'margins')
+                x, y = get(eng, st, 'cursor', 'x'), get(eng, st, 'cursor', 'y')
+                okx, wx = plt.prove_rel(eng, st, 'eq', x, lambda s2: eng.num_min(s2, sx, NumV(cols.sym, cols.k - 1, 'u32'), 'u32'))
+                if isinstance(m, EnumV) and m.tags == {1}:
+                    mm = m.payload[1].fields['0']
+                    oky, wy = plt.prove_rel(eng, st, 'eq', y, lambda s2: eng.num_min(s2, eng.num_max(s2, mm.fields['top'], sy, 'u32'), mm.fields['bottom'], 'u32'))
+                elif isinstance(m, EnumV) and m.tags == {0}:
+                    oky, wy = plt.prove_rel(eng, st, 'eq', y, lambda s2: eng.num_min(s2, sy, NumV(lines.sym, lines.k - 1, 'u32'), 'u32'))
+                else:
+                    oky, wy = True, ''
+                if not okx:
+                    bad.append('[%s] restored column %s is not the saved column clamped to the screen (%s)' % (r.label, g.term(eng, st, x), wx))
+                if not oky:
+                    bad.append('[%s] restored row %s is not the saved row clamped to the region/screen (%s)' % (r.label, g.term(eng, st, y), wy))
+                a = get(eng, st, 'cursor', 'attr')
+                sa = sc.fields.get('attr')
+                if sa is not None and a.key() != sa.key():
+                    bad.append('[%s] restored rendition is not the saved one' % r.label)
+            else:
+                bad.append('[%s] popped value has no cursor position' % r.label)
         else:
             cnt_empty += 1
             x, y = get(eng, st, 'cursor', 'x'), get(eng, st, 'cursor', 'y')
@@ -910,5 +944,33 @@ def run_c04(ctx, chk):
             bad.append('replace mode: the row is shifted although IRM is off')
     chk.instance('R-MUST', short(draw), 'IRM on: shift, then store; IRM off: no shift', n_irm > 0 and not bad, detail='; '.join(sorted(set(bad))) or '%d insert-mode iterations' % n_irm,
                  span=prog.bodies[draw].span, what='; '.join(sorted(set(bad))))
+    # with the cursor past the last column and autowrap off, a printable character of width w is
+    # stored so that it ends in the last column: lead cell at column columns - w
+    bad = []
+    n_pw = 0
+    for s in segs:
+        st = s['st']
+        xh = st.vn.get(('lh', draw, s['head'], 'x'))
+        cols = get(eng, st, 'columns')
+        if not isinstance(xh, NumV) or eng.prove_cmp(st, 'eq', xh, cols) is not True:
+            continue
+        if mode_fact(eng, st, DECAWM) is not False:
+            continue
+        ws = [v for k, v in st.vn.items() if isinstance(k, tuple) and k and k[0] == 'width' and isinstance(v, NumV)]
+        if len(ws) != 1 or eng.prove_le(st, NumV(None, 1, 'usize'), ws[0]) is not True:
+            continue
+        w = ws[0]
+        pre, evs = g.seg_events(dict(kind='backedge', st=st, func=draw, head=s['head']))
+        stores = [ev for ev in evs if ev[0] == 'map.insert' and ev[-1] == draw and len(ev[1]) == 3]
+        if not stores:
+            continue
+        n_pw += 1
+        col = stores[0][2]
+        ok, why = plt.prove_rel(eng, st, 'eq', col, lambda s2: sat_sub(eng, s2, get(eng, s2, 'columns'), NumV(w.sym, w.k, 'u32')))
+        if not ok:
+            bad.append('lead cell stored at column %s, documented columns - width, not below 0 (%s)' % (g.term(eng, st, col), why))
+    chk.instance('R-PLT', short(draw), 'pending wrap + autowrap off: the character overwrites the last column(s)', n_pw > 0 and not bad,
+                 detail='; '.join(sorted(set(bad))[:2]) or '%d iteration paths in that state' % n_pw, span=prog.bodies[draw].span,
+                 what='; '.join(sorted(set(bad))[:2]) or 'no iteration path with pending wrap and autowrap off was found')
     from .rules_c01 import panic_obligations
     panic_obligations(chk, 'C04', eng, only_funcs=funcs)
